@@ -534,7 +534,7 @@ func redactPipelineStage(stage interface{}, redactFieldNames bool, keyPath []str
 							isSelectivelyRedactable := isRedactableFieldPatternInArray(subVTyped)
 							newSubMap.Set(redactedSubK, redactArrayValues(subVTyped, redactFieldNames, inSearchStage, isSelectivelyRedactable, append(newKeyPath, subK)))
 						default:
-							newSubMap.Set(redactedSubK, redactScalarValue([]string{k}, subV, inSearchStage, false))
+							newSubMap.Set(redactedSubK, redactScalarValue([]string{k, subK}, subV, inSearchStage, false))
 						}
 					}
 					newMap.Set(redactedKey, newSubMap)
